@@ -53,3 +53,99 @@ def c17(chk, prop, tier, seed, nshards, workdir, t0):
     merged["counters"]["reach:digests-compared-per-process"] = len(base)
     extra_cov = {"cross_process": {"processes": len(runs), "rayon_pool_sizes": pools, "digests_per_process": len(base), "mismatches": mismatches}}
     return chk.finish(prop, tier, seed, merged, time.time() - t0, extra_cov=extra_cov)
+
+
+def _pub_fns(repo):
+    import re
+    names = set()
+    for root, _, files in os.walk(os.path.join(repo, "src")):
+        for f in files:
+            if f.endswith(".rs") and "verif" not in f and not f.startswith("main"):
+                for line in open(os.path.join(root, f), errors="replace"):
+                    m = re.match(r"\s*pub fn ([a-z_0-9]+)", line)
+                    if m:
+                        names.add(m.group(1))
+    return names
+
+
+def _dump_case(binary, prop, tier, seed, idx):
+    p = subprocess.run([binary, prop, "--tier", tier, "--seed", str(seed), "--only-case", str(idx), "--extra", "dump"],
+                       stdout=subprocess.PIPE, text=True)
+    try:
+        return json.loads(p.stdout).get("notes", {}).get("dump", [])
+    except Exception:
+        return None
+
+
+def _close(a, b):
+    """compare two canonical outcome strings, numbers at 1e-9 relative"""
+    import re
+    if a == b:
+        return True
+    num = re.compile(r"-?\d\.\d{11}e-?\d+")
+    xa, xb = num.findall(a), num.findall(b)
+    if num.sub("#", a) != num.sub("#", b) or len(xa) != len(xb):
+        return False
+    for p, q in zip(xa, xb):
+        p, q = float(p), float(q)
+        if abs(p - q) > 1e-9 * max(1.0, abs(p), abs(q)):
+            return False
+    return True
+
+
+def c20(chk, prop, tier, seed, nshards, workdir, t0):
+    """C20: the same call table under the checked build (overflow checks + debug assertions on)
+    and the plain release build; values returned by both must agree."""
+    checked = chk.build("release")
+    plain = chk.build("plain")
+    rep_c, syn_c = chk.run_shards(checked, prop, tier, seed, nshards, workdir, tag="-checked")
+    rep_p, syn_p = chk.run_shards(plain, prop, tier, seed, nshards, workdir, tag="-plain")
+    merged = chk.merge(rep_c + rep_p)
+    for s in syn_c + syn_p:
+        merged["violations"].append(s)
+        merged["sig_counts"][s["signature"]] = merged["sig_counts"].get(s["signature"], 0) + 1
+    dc, dp = _collect_digests(rep_c), _collect_digests(rep_p)
+    differing = [k for k in dc if k in dp and dc[k] != dp[k]]
+    confirmed = 0
+    for k in sorted(differing, key=int)[:25]:
+        # hash iteration order differs from run to run, so a call only counts when each build
+        # agrees with itself over 4 fresh processes and the two builds still disagree
+        runs_a = [_dump_case(checked, prop, tier, seed, int(k)) for _ in range(4)]
+        runs_b = [_dump_case(plain, prop, tier, seed, int(k)) for _ in range(4)]
+        if any(r is None for r in runs_a + runs_b) or len({len(r) for r in runs_a + runs_b}) != 1:
+            continue
+        for i in range(len(runs_a[0])):
+            ca = runs_a[0][i][0]
+            va = [r[i][1] for r in runs_a]
+            vb = [r[i][1] for r in runs_b]
+            if not all(v.startswith("Ok(") for v in va + vb):
+                continue
+            stable = all(_close(va[0], v) for v in va) and all(_close(vb[0], v) for v in vb)
+            if stable and not _close(va[0], vb[0]):
+                confirmed += 1
+                fn = ca.split("(")[0]
+                sig = "%s|%s|checked-and-plain-build-disagree|value" % (prop, fn)
+                merged["violations"].append({
+                    "signature": sig,
+                    "what": "%s returns different values in the checked and the plain build (wrapped arithmetic leaked into a result)" % fn,
+                    "detail": {"call": ca, "checked_build": va[0][:600], "plain_build": vb[0][:600]},
+                    "case_index": int(k), "case": None,
+                    "replay": {"prop": prop, "seed": seed, "tier": tier, "case_index": int(k), "extra": []},
+                })
+                merged["sig_counts"][sig] = merged["sig_counts"].get(sig, 0) + 1
+                break
+    pubs = _pub_fns(chk.REPO)
+    covered = set(merged["notes"].get("covered_functions", []))
+    merged["notes"].pop("digests", None)
+    merged["notes"].pop("covered_functions", None)
+    merged["counters"]["reach:cases-compared-across-builds"] = len([k for k in dc if k in dp])
+    extra_cov = {
+        "profiles": ["checked: opt-level 2 + overflow-checks + debug-assertions", "plain: stock release settings"],
+        "cases_compared_across_builds": len([k for k in dc if k in dp]),
+        "cases_with_different_digest": len(differing),
+        "value_disagreements_confirmed": confirmed,
+        "public_functions_in_src": len(pubs),
+        "public_functions_in_call_table": len(pubs & covered),
+        "public_functions_not_in_call_table": sorted(pubs - covered),
+    }
+    return chk.finish(prop, tier, seed, merged, time.time() - t0, extra_cov=extra_cov)
